@@ -65,6 +65,7 @@ type c14Scenario struct {
 	threads [][]string
 	mainOps []string // performed by the property's own goroutine while the others run
 	verbose bool
+	late    bool // the workers are not joined by the property body but by a Cleanup function ("cleanup waits for workers")
 }
 
 func c14Scenarios(quick bool) []c14Scenario {
@@ -82,6 +83,10 @@ func c14Scenarios(quick bool) []c14Scenario {
 		{name: "Context|Cleanup|main Context+Cleanup", threads: [][]string{{"Context"}, {"Cleanup"}}, mainOps: []string{"Context", "Cleanup"}},
 		{name: "CleanupSpawns: cleanup callbacks start goroutines", threads: [][]string{{"CleanupSpawn"}, {"Context"}}},
 		{name: "Failed+Failed|Fail+Failed", threads: [][]string{{"Failed", "Failed"}, {"Fail", "Failed"}}},
+		{name: "Cleanup|Cleanup while the property's goroutine is inside Repeat", threads: [][]string{{"Cleanup"}, {"Cleanup", "Failed"}}, mainOps: []string{"Repeat"}},
+		{name: "Errorf|Cleanup while the property's goroutine is inside Repeat", threads: [][]string{{"Errorf"}, {"Cleanup"}}, mainOps: []string{"Repeat", "Failed"}},
+		{name: "late workers: Cleanup+Cleanup|Cleanup joined by a cleanup", threads: [][]string{{"Cleanup", "Cleanup"}, {"Cleanup"}}, mainOps: []string{"Cleanup", "Cleanup"}, late: true},
+		{name: "late workers: Cleanup+Context|Errorf joined by a cleanup", threads: [][]string{{"Cleanup", "Context"}, {"Errorf"}}, mainOps: []string{"Cleanup"}, late: true},
 		{name: "CleanupErrorfSpawn|Cleanup: failure from a goroutine started by a cleanup", threads: [][]string{{"CleanupErrorfSpawn"}, {"Cleanup"}}},
 		{name: "CleanupErrorfSpawn|CleanupSpawn|Context", threads: [][]string{{"CleanupErrorfSpawn"}, {"CleanupSpawn"}, {"Context"}}},
 	}
@@ -169,6 +174,9 @@ func (r *c14Run) do(t *rapid.T, thread int, op string) {
 			h1.Join()
 			h2.Join()
 		})
+	case "Repeat":
+		t.Repeat(map[string]func(*rapid.T){"noop": func(*rapid.T) {}})
+		ev.op = "Name"
 	case "Draw":
 		rapid.Bool().Draw(t, "b")
 		ev.op = "Name" // no model state
@@ -202,6 +210,16 @@ func c14Units(tier string, seed int64) []Unit {
 				words := []uint64{1, 0, 1, 1, 0, 0, 1, 0}
 				res = rapid.VerifRunBuf(tb, words, sc.verbose, func(t *rapid.T) {
 					var hs []*vsync.Handle
+					if sc.late {
+						r.regs++
+						id := r.regs
+						t.Cleanup(func() {
+							r.cleanups[id]++
+							for _, h := range hs {
+								h.Join()
+							}
+						})
+					}
 					for i, ops := range sc.threads {
 						i, ops := i, ops
 						hs = append(hs, vsync.Go(func() {
@@ -210,11 +228,16 @@ func c14Units(tier string, seed int64) []Unit {
 							}
 						}))
 					}
+					if !sc.late {
+						// joined even when the property's own goroutine is stopped by a failure (e.g. inside Repeat)
+						defer func() {
+							for _, h := range hs {
+								h.Join()
+							}
+						}()
+					}
 					for _, op := range sc.mainOps {
 						r.do(t, 0, op)
-					}
-					for _, h := range hs {
-						h.Join()
 					}
 				})
 			}
@@ -265,16 +288,16 @@ func c14Units(tier string, seed int64) []Unit {
 						viol("cleanup-count", fmt.Sprintf("cleanup %d of %d ran %d times", id, r.regs, r.cleanups[id]))
 					}
 				}
-				if len(r.ctxIDs) > 1 {
+				if len(r.ctxIDs) > 1 && !sc.late {
 					viol("two-contexts", fmt.Sprintf("%d different contexts were handed out during one invocation", len(r.ctxIDs)))
 				}
 				for _, live := range r.ctxLive {
-					if !live {
+					if !live && !sc.late {
 						viol("dead-context", "Context() returned a cancelled context before the property returned")
 					}
 				}
 				for ctx := range r.ctxIDs {
-					if ctx.Err() == nil {
+					if ctx.Err() == nil && !sc.late { // a Context() call made after the property returned is outside the statement
 						viol("context-not-cancelled", "the context is still live after the invocation ended")
 					}
 				}
@@ -302,7 +325,7 @@ func init() {
 	Register(&Check{
 		ID:    "C14",
 		Level: "model_checking",
-		Rule: "E3 sched: 15 (quick) / 18 (thorough) scenarios of 2-4 controlled threads x 1-3 calls each from {Errorf, Error, Fail, Failed, Log, Name, Helper, Context, Cleanup, cleanup-that-spawns} on one real *T inside a real checkOnce (optionally while the property's own goroutine draws or calls the same methods, with and without verbose logging); " +
+		Rule: "E3 sched: 19 (quick) / 22 (thorough) scenarios of 2-4 controlled threads x 1-3 calls each from {Errorf, Error, Fail, Failed, Log, Name, Helper, Context, Cleanup, cleanup-that-spawns} on one real *T inside a real checkOnce (optionally while the property's own goroutine draws or calls the same methods, with and without verbose logging); " +
 			"every interleaving at sync-operation granularity within the preemption bound (3 quick, 4 thorough). Oracles per execution: no happens-before race on any instrumented field/element/map access, no deadlock, porcupine-linearizable history, failure never lost, every cleanup exactly once, one live context. " +
 			"distinct = distinct (per-call results, verdict) histories; non-trivial = the schedule contains at least one preemption.",
 		Assumptions: []string{"sequentially consistent interleavings at sync-operation granularity + happens-before race freedom on instrumented accesses (DRF-SC argument); goroutines are joined before the property returns",
